@@ -188,6 +188,12 @@ def prefixes(plen: int, max_trials: int) -> list[list]:
     return frontier
 
 
+def replay_case(raw: dict, part: Part) -> None:
+    backends.setup_determinism()
+    optuna.logging.set_verbosity(optuna.logging.ERROR)
+    build(list(raw["history"]), part)
+
+
 def run(tier: str, replay: str | None = None) -> int:
     backends.setup_determinism()
     optuna.logging.set_verbosity(optuna.logging.ERROR)
